@@ -519,7 +519,7 @@ fn main() {
     {
         let rep = rep.clone();
         let current = current.clone();
-        let limit_s = if only.is_some() { 60 } else { 20 };
+        let limit_s = if only.is_some() { 30 } else { 15 };
         std::thread::spawn(move || {
             let mut last = (u64::MAX, 0u64);
             let mut since = std::time::Instant::now();
